@@ -35,8 +35,67 @@ def _strip(n):
     return re.sub(r"::+", "::", n).strip(":")
 
 
+def reach_flow(b, assume, cap=60000):
+    """reach_under with constant propagation of the booleans produced by `matches!(x, A | B)` on an assumed discriminant:
+    states are (block, known bool locals); falls back to the plain reachability if the state space explodes"""
+    from collections import deque
+    from .mirlib import op_const, op_local
+    start = (0, frozenset())
+    seen = {start}
+    dq = deque([start])
+    blocks = {0}
+    while dq:
+        bl, env = dq.popleft()
+        e = dict(env)
+        for s in b.stmts(bl):
+            if s[0] != "a" or s[1][1]:
+                continue
+            dst = s[1][0]
+            val = None
+            if s[2][0] == "use":
+                k = op_const(s[2][1])
+                if k is not None:
+                    txt = str(k[0] if isinstance(k, (list, tuple)) else k)
+                    if txt in ("true", "false"):
+                        val = txt == "true"
+                else:
+                    l = op_local(s[2][1])
+                    if l in e:
+                        val = e[l]
+            if val is None:
+                e.pop(dst, None)
+            else:
+                e[dst] = val
+        t = b.term(bl)
+        succ = b.succ(bl)
+        if t["k"] == "call":
+            e.pop(t["dest"][0], None)
+        if t["k"] == "switch":
+            dr = dtm.discr_root(b, bl)
+            want = dtm._assumed(assume, dr[0]) if dr else None
+            if want is not None:
+                vals = dict(t["ts"])
+                succ = [vals[want]] if want in vals else [t["else"]]
+            else:
+                l = op_local(t["d"])
+                if l in e and t.get("dty") == "bool":
+                    vals = dict(t["ts"])
+                    w = "1" if e[l] else "0"
+                    succ = [vals[w]] if w in vals else [t["else"]]
+        fe = frozenset(e.items())
+        for x in succ:
+            st = (x, fe)
+            if st not in seen:
+                seen.add(st)
+                blocks.add(x)
+                dq.append(st)
+                if len(seen) > cap:
+                    return dtm.reach_under(b, assume)
+    return blocks
+
+
 def callee_set(F, b, key, d):
-    r = dtm.reach_under(b, {key: d})
+    r = reach_flow(b, {key: d})
     out = set()
     for bb, t in b.calls():
         if bb in r:
